@@ -7,7 +7,7 @@ use crate::loop_el::{ForElement, LoopElement};
 use crate::position::{BoundingBox, BoundingBoxBuilder, LocSpec};
 use crate::reuse::ReuseElement;
 use crate::themes::ThemeBuilder;
-use crate::types::{fstr, split_unit, AttrMap, OrderIndex};
+use crate::types::{fstr, split_unit, strp, AttrMap, OrderIndex};
 use crate::TransformConfig;
 
 use std::collections::{BTreeMap, HashMap, HashSet};
@@ -367,11 +367,24 @@ impl EventGen for Container {
                     // x / y / width / height rather than by what they contain.
                     bbox = Some(own_bbox);
                     context.update_element(&new_el);
-                } else if bbox.is_some() {
-                    new_el.content_bbox = bbox;
+                } else if let Some(content_bbox) = bbox {
+                    let mut content_bbox = content_bbox;
+                    if self.0.name == "svg" && context.is_nested() {
+                        // (a nested <svg> without a size of its own: its x / y still
+                        // say where its content is drawn)
+                        let offset = |name: &str| new_el.get_attr(name).and_then(|v| strp(&v).ok());
+                        content_bbox = content_bbox
+                            .xfrm_translate(offset("x").unwrap_or(0.), offset("y").unwrap_or(0.));
+                    }
+                    new_el.content_bbox = Some(content_bbox);
                     context.update_element(&new_el);
-                    // any transform (e.g. on an <a>) moves the content as it does for <g>
-                    bbox = new_el.transformed(bbox)?;
+                    bbox = match self.0.name == "svg" && !context.is_nested() {
+                        // (the document's root: the extent of the image is that of its
+                        // content, in the coordinates the viewBox is given in)
+                        true => Some(content_bbox),
+                        // any transform (e.g. on an <a>) moves the content as it does for <g>
+                        false => new_el.transformed(Some(content_bbox))?,
+                    };
                 } else if self.0.name == "text" {
                     // text with child elements (tspan etc): its anchor point
                     bbox = new_el.bbox()?;
@@ -933,6 +946,8 @@ struct Waiting {
     prev_known: BTreeMap<usize, Option<PrevElements>>,
     /// number of tags which wait
     waiting_count: usize,
+    /// the settings as a tag which waits left them at its last attempt (by position)
+    configured: HashMap<usize, TransformConfig>,
 }
 
 /// The previous element: as evaluated, and as written
@@ -958,6 +973,7 @@ impl Waiting {
                 .map(|(pos, (idx, _))| (idx.clone(), pos))
                 .collect(),
             prev_before_all: context.prev_elements(),
+            configured: HashMap::new(),
             prev_known: BTreeMap::new(),
             waiting_count: 0,
         }
@@ -1068,10 +1084,16 @@ impl Waiting {
                 // what a retried element does to its surroundings comes too late for the
                 // elements after it, which have been evaluated already - except settings
                 // it changed (the border, say), which are the document's
+                // (... other than those its earlier attempt made already: what has been
+                // configured since comes later in the document)
                 let changed = match (succeeded, &started_in) {
-                    (true, Some(started_in)) => {
-                        context.config_changed_since(started_in, &current)
-                    }
+                    (true, Some(started_in)) => TransformerContext::config_carried(
+                        self.configured
+                            .get(&attempt.pos)
+                            .unwrap_or(started_in.config()),
+                        &context.config,
+                        current.config(),
+                    ),
                     _ => None,
                 };
                 context.set_surroundings(*current);
@@ -1091,6 +1113,7 @@ impl Waiting {
             {
                 context.update_config(config);
             }
+            self.configured.insert(attempt.pos, now);
         }
     }
 }
